@@ -31,7 +31,8 @@ inductive MKind
   | plain
   | optional
   | fixed (n : Nat)
-  | dyn (sizer : String)                 -- `T x<@sizer>`
+  | dyn (sizer : String) (shift : Nat)   -- `T x<@sizer>`; the counter holds the count plus `shift`
+                                         -- (prophy.array(..., bound=, shift=); always 0 in prophyc output)
   | limited (sizer : String) (n : Nat)   -- `T x<n>` (its own `num_of_x` sizer)
   | greedy                               -- `T x<...>`
   deriving DecidableEq, Repr, Inhabited
@@ -83,14 +84,24 @@ def Val.len : Val → Nat
 
 /-- the member occupies a slot of fixed size (it is not a dynamic or greedy array) -/
 def MKind.isStatic : MKind → Bool
-  | .dyn _ => false
+  | .dyn _ _ => false
   | .greedy => false
   | _ => true
 
 def MKind.sizer? : MKind → Option String
-  | .dyn s => some s
+  | .dyn s _ => some s
   | .limited s _ => some s
   | _ => none
+
+def MKind.shift : MKind → Nat
+  | .dyn _ sh => sh
+  | _ => 0
+
+/-- shift of the arrays bound to sizer `s` (that of the first one; generators.py validate_bound_shift
+    makes them all equal) -/
+def sizerShift (s : String) : List Member → Nat
+  | [] => 0
+  | m :: r => if m.kind.sizer? = some s then m.kind.shift else sizerShift s r
 
 /-- lengths of all arrays of the struct bound to sizer `s` (prophy/generators.py:377) -/
 def boundLens (s : String) : List Member → List Val → List Nat
